@@ -140,7 +140,7 @@ def families(tier):
     # interrupts (a handler waiting for its turn to process an awaited child inline, a sibling, the child itself), every event a dispatch() ACCEPTED
     # still ends completed, and wait_until_idle() returns
     from .. import gen
-    out += gen.family('C14', tier, params=dict(K=0, hist=50, src='async', reoffer=False), timeouts=(0.5,), main_mode='idle')
+    out += gen.family('C14', tier, params=dict(K=0, hist=50, src='async', reoffer=False), timeouts=(0.5,), main_mode='idle', thorough_light=True)
     return out
 
 
